@@ -90,6 +90,31 @@ TEMPLATES = [
     ("internal_lambda_args", "f := __internal_lambda 2 (__internal_call 3 {A}); f({B})", 2),
     ("str_range_gap3", "'\\u{{d7fe}}' to '\\u{{e001}}'", 0), ("iota_by", "force_(iota({A}, {B}))", 2),
     ("precedence", "f := \\a, b -> a; f::precedence = {A}; 1 f 2", 1), ("freeze", "freeze (\\q -> q + {A})", 1),
+    # every builtin that can stand in a pattern (src/lib.rs fn destructure: + - * / comparisons +. .+), with the known operand and
+    # the matched value of every kind, as a declaration and as a switch arm
+    ("pat_add_l", "(literally {A}) + pa_ := {B}; pa_", 2), ("pat_add_r", "pa_ + (literally {A}) := {B}; pa_", 2),
+    ("pat_mul_l", "(literally {A}) * pa_ := {B}; pa_", 2), ("pat_mul_r", "pa_ * (literally {A}) := {B}; pa_", 2),
+    ("pat_sub_l", "(literally {A}) - pa_ := {B}; pa_", 2), ("pat_sub_r", "pa_ - (literally {A}) := {B}; pa_", 2),
+    ("pat_neg", "-pa_ := {A}; pa_", 1), ("pat_div", "pa_ / pb_ := {A}; [pa_, pb_]", 1), ("pat_div_lit", "pa_ / (literally {A}) := {B}; pa_", 2),
+    ("pat_cmp", "(literally {A}) < pa_ := {B}; pa_", 2), ("pat_cmp3", "(literally {A}) <= pa_ < (literally {C}) := {B}; pa_", 3),
+    ("pat_snoc", "pa_ +. pb_ := {A}; [pa_, pb_]", 1), ("pat_cons", "pa_ .+ pb_ := {A}; [pa_, pb_]", 1),
+    ("pat_snoc_lit", "pa_ +. (literally {A}) := {B}; pa_", 2), ("pat_cons_lit", "(literally {A}) .+ pa_ := {B}; pa_", 2),
+    ("pat_switch_mul", "switch ({B}) case (literally {A}) * pa_ -> pa_ case pa_ * 2 -> pa_ case _ -> 0", 2),
+    ("pat_switch_add", "switch ({B}) case (literally {A}) + pa_ -> pa_ case -pa_ -> pa_ case _ -> 0", 2),
+    ("pat_assign_mul", "pa_ := 0; (literally {A}) * pa_ = {B}; pa_", 2),
+    # the remaining expression kinds (Expr variants of src/core.rs): format strings with every flag, while, yield into / yield k: v,
+    # symbol access, struct definitions with defaults, dict defaults, `literally` patterns, freeze of a value, every-/tuple-/op-assignment
+    # with an arbitrary value as the operator, backtick calls
+    ("fmt_hex", "F'{{{A} #x}} {{{A} #X}}'", 1), ("fmt_bin_pad", "F'{{{A} #b 012}}'", 1), ("fmt_center", "F'{{{A} #^7}}{{{B} #<7o}}{{{A} #>3d}}'", 2),
+    ("fmt_wide", "F'{{{A} #99999}}'", 1), ("fmt_nested", "F'{{F\"{{{A}}}\" #5}}'", 1),
+    ("while_break", "while ({A}) break", 1), ("while_body", "n9 := 0; while (n9 < 2) (n9 += 1; {A}({B}))", 2),
+    ("yield_into", "for (q <- {A}) yield q into {B}", 2), ("yield_kv", "for (q <- {A}) yield q: {B}", 2), ("yield_kv_into", "for (k, v <<- {A}) yield v: k into {B}", 2),
+    ("symbol_access", "{A}::a", 1), ("symbol_assign", "x := {A}; x::a = {B}; x", 2), ("struct_default", "struct S9 (b9, a9 = {A}); [S9({B}), S9({B}, {C})]", 3),
+    ("dict_default", "{{:{A}, {B}: {C}}}", 3), ("dict_default_get", "d9 := {{:{A}}}; [d9[{B}], d9 !? {B}, d9]", 2),
+    ("literally_switch", "switch ({A}) case (literally {B}) -> 1 case _ -> 0", 2), ("freeze_val", "freeze {A}", 1),
+    ("every_assign", "x := {A}; every x = {B}; x", 2), ("tuple_assign", "x := {A}; z := 0; x, z = {B}; [x, z]", 2),
+    ("op_assign_val", "x := {A}; x {B}= {C}; x", 3), ("backtick", "{A} `{B}` {C}", 3), ("try_pattern", "try throw {A} catch [q, w] -> q catch q -> 0", 1),
+    ("try_literally", "try throw {A} catch (literally {B}) -> 1", 2), ("annot_value", "x: {A} = {B}", 2), ("annot_satisfying", "x: satisfying({A}) = {B}", 2),
 ]
 
 
